@@ -151,6 +151,11 @@ func (c *Check) ArgIs(cs *CallSite, rule, label string, m Macros, i int, want st
 	want = m.X(want)
 	got := args[i].String()
 	if got != want {
+		if ex := c.expandConstructor(args[i]); ex != nil && ex.String() == want {
+			got = want
+		}
+	}
+	if got != want {
 		// an equality established on every path to the call makes its two sides interchangeable
 		for _, pc := range c.P.FA(cs.Fn).PathConds(cs.Ins.Block()) {
 			if pc.Op != "bin" || pc.Name != "==" || len(pc.Args) != 2 {
@@ -511,3 +516,24 @@ func (c *Check) PathCounts(fn *ssa.Function, pred func(*CallSite) bool) []pathIn
 }
 
 func sprint(i int) string { return fmt.Sprint(i) }
+
+// expandConstructor: a call to an in-repository function that is one straight line ending in a single return is
+// replaced by what it returns (in the caller's terms): `h.ConsensusState()` and the literal it builds are the same value.
+func (c *Check) expandConstructor(e *Expr) *Expr {
+	if e == nil || e.Op != "call" {
+		return nil
+	}
+	cv, ok := e.Val.(*ssa.Call)
+	if !ok {
+		return nil
+	}
+	fn := cv.Call.StaticCallee()
+	if fn == nil || !inTeleport(fn) || len(fn.Blocks) == 0 || len(fn.Blocks) > 4 || fn.Signature.Results().Len() != 1 {
+		return nil
+	}
+	rets := c.P.RetExprs(fn, 0)
+	if len(rets) != 1 {
+		return nil
+	}
+	return substParams(rets[0], e.Args)
+}
